@@ -229,6 +229,8 @@ def run_C03(run):
     run.gen_and_replay("MC_Expr", consts(ec, Family="C03a"), name="pos-first", kind="sel-set")
     # (2) positional predicate followed by a boolean predicate
     run.gen_and_replay("MC_Expr", consts(ec, Family="C03b", MaxNodes=4 if q else 5), name="pos-then-bool", kind="sel-set")
+    # (2a) a positional child step continued by a step on every axis, by '//', by another positional step
+    run.gen_and_replay("MC_Expr", consts(ec, Family="C03cont", MaxNodes=1 if q else 5, CatIds={3, 5, 7} if q else ALL_CAT), name="pos-then-steps", kind="sel-set")
     # (2b) XQueryVM2 on numeric predicates (position counters, positmap, merge rewrite, (path)[n] re-rooting)
     vm2_stage(run, {2, 3, 4}, "C03")
     # (3) (flat path)[n] and (//name)[n]
